@@ -56,6 +56,28 @@ prop("C08", engine="fsmsim", level="exploration", technique="deterministic simul
      text="No report pauses below the limit or with limit 0; the report that first reaches the limit returns the pause signal, DataLimitExceeded is announced and the responder is marked paused; the rule re-applies after every limit change and after restarts. Manager-level resume/reject rules and 'no payload moves while paused' are netsim strata.",
      note="only the limited counter of the role (queued for pull responder, received for push responder) may pause")
 
+NETRULE = "one evaluation = one seeded two-node run: real managers A (initiator) and B (responder) over SimHost/SimGraphsync/SimDisk transfer 1-2 generated DAGs (push/pull, default or per-channel stores, optional pre-seeded receiver) under a tape-drawn configuration of the stratum (application pause/resume, validator data limits + revalidation, finalisation, forced pause, vouchers, closes, restarts, connection cuts with heal and monitor- or application-driven restart); 5 simulated minutes of activity, then faults stop and 30 simulated minutes of settle; oracles run over the recorded histories; distinct = schedule hash; "
+prop("C01", engine="netsim", level="exploration", technique="deterministic two-node simulation with fault injection (cuts, restarts, pauses, limits); end-state + conservation oracle",
+     rule=NETRULE + "non-trivial = an accepted channel reached Completed on the initiator in a run with at least one pause/limit/finalisation/fault",
+     probes=["accepted-completed", "nontrivial", "local-only-pull-completed"], real=REAL_NET, stubs=STUB_NET, assumptions=ASSUME,
+     text="For every accepted channel the initiator reports Completed: the responder has the channel, sent an un-paused Complete, settles in Completed unless its own application ended it, a fresh selector walk over the receiver's store finds every block byte-identical, and (receiver store initially empty) Received == Queued == unique payload size; a fully local pull completes without a responder channel.",
+     note="the graphsync engine is an executable model (calibrated against hook traces of the real engine); a violation whose trace depends on graphsync semantics is re-examined against the real stack before it is called a defect")
+prop("C09", engine="netsim+fsmsim", level="exploration", technique="deterministic simulation with fault injection; history oracle over event stream, conn-manager, transport and wire logs; generic every-call-returns oracle",
+     rule=NETRULE + "fsmsim strata add entries into the three cleanup statuses from every status; non-trivial = a close was checked or a channel reached a terminal status after a fault",
+     probes=["close-checked", "terminal-reached:A", "terminal-reached:B"], real=REAL_NET, stubs=STUB_NET, assumptions=ASSUME,
+     text="Every entry into Cancelling/Failing/Completing is followed by cleanup + unprotect before the terminal status, the matching terminal status is reached after settle (no further lifecycle input), transport mappings and per-channel stores are gone; close calls return (no call is still blocked at quiescence) within 2 simulated minutes, hand a cancel message of the role's kind to the network and end in Cancelled.",
+     note="'promptly' is operationalised as: returned by the end of settle and within 2 simulated minutes (the send path's own retry budget)")
+prop("C10", engine="netsim", level="exploration", technique="deterministic two-node simulation with cuts/restarts; relational before/after oracle over wire, validator and graphsync call logs",
+     rule=NETRULE + "non-trivial = a restart request or restart-existing-channel request was sent",
+     probes=["restart-request-sent", "restart-existing-sent", "second-gs-request"], real=REAL_NET, stubs=STUB_NET, assumptions=ASSUME,
+     text="Restart requests repeat transfer id, direction, voucher and base CID; responders ask with restart-existing naming exactly that channel; accepted restarts are preceded by ValidateRestart; a channel's previous graphsync request is cancelled or finished before a new one is issued; no node ever lists more channels than were opened; identity and recorded progress never change across restarts.",
+     note="the exact skip count (do-not-send-first-blocks == ReceivedCidsTotal) is checked where it is race-free: in the transport-level engine")
+prop("C19", engine="netsim+all", level="exploration", technique="deterministic simulation; total-accessor + view-consistency oracle on every snapshot any engine sees; log append-only/exactly-once history oracle",
+     rule=NETRULE + "every ChannelState handed out anywhere (subscriber callbacks, queries, validator callbacks, reopened stores) has all 31 accessors called with panics recovered per accessor; non-trivial = a voucher or voucher result was exchanged",
+     probes=["voucher-sent", "nontrivial"], real=REAL_NET, stubs=STUB_NET, assumptions=ASSUME,
+     text="No accessor panics; IsPull/ChannelID/OtherPeer/Both/SelfPaused/first voucher agree with each other and with creation; voucher and result logs only grow by appends; a voucher is recorded by the initiator iff its send succeeded, exactly once; the responder records each received voucher and each sent result exactly once; Last* equal the final entry or the empty value.",
+     note="")
+
 ORDER = ["C%02d" % i for i in range(1, 21)]
 PENDING = {pid: "check under construction in this session (engine not yet registered); not claimed until its quick command runs clean" for pid in ORDER if pid not in P}
 
@@ -96,6 +118,7 @@ def main():
         },
         "engines": [
             {"name": "fsmsim", "path": "sim/fsmsim.go", "serves_properties": ["C02", "C03", "C06", "C07", "C08", "C09", "C11", "C17", "C19"], "kind_free_text": "real channels FSM stack on SimDisk under the simrt baton scheduler"},
+            {"name": "netsim", "path": "sim/netscen.go", "serves_properties": ["C01", "C02", "C04", "C09", "C10", "C11", "C19", "C20"], "kind_free_text": "two real managers over SimHost/SimGraphsync/SimDisk under the simrt baton scheduler, with fault injection"},
         ],
         "checks": checks,
         "not_applicable": [{"property_id": k, "reason": v} for k, v in PENDING.items()],
